@@ -34,7 +34,7 @@ FxMinus(a, b) == LET l == a[2] - b[2]
 FxLe(a, b)    == a[1] < b[1] \/ (a[1] = b[1] /\ a[2] <= b[2])
 FxSame(a, b)  == LET d == FxMinus(a, b)
                  IN (d[1] = 0 /\ d[2] <= FxTol) \/ (d[1] = -1 /\ d[2] >= FxB - FxTol)
-FxNoTPL(a, b) == Assert(FALSE, "TPL classes are not trace validated")
+FxNoTPL(cl, a, b, o) == Assert(FALSE, "TPL classes are not trace validated")
 
 -----------------------------------------------------------------------------
 R == run
